@@ -7,6 +7,10 @@ ENGINES={
  "lexmc":("harness/src/lexmc.rs","exhaustive prefix-tree exploration of all strings up to a length bound through the real lexer"),
 }
 CHECKS={
+ "C16":dict(engine="progmc",category="exploration",
+   text="Complete product of 13 hint positions (let, multi-let, typed wildcard over list and iterator sources, for arguments, function arguments incl. nested, return types on implicit/explicit/early return, generator yield types, match arms incl. nested and map patterns, typed catch) x 20 hint names x optional/non-optional x 21 runtime values (every value kind, generator functions, objects with @type, @base chains of depth 1 and 2, callable and plain objects). Every program is compiled and run with enable_type_checks on and off; the reference interpreter (type rules written from the guide) runs in the same mode and all observations must agree, which decides both 'errors exactly when documented' and 'disabling changes nothing else'.",
+   note="Trusted: kref's type rules and the renderer. Combinations the guide leaves open (Iterable/Indexable on maps with metamaps, Iterable on unbounded ranges, Callable on generator functions) are not generated or not compared.",
+   technique="exhaustive position x hint x value product + differential against a reference model under both compiler settings"),
  "C04":dict(engine="progmc",category="fault_enumeration",
    text="Fault enumeration: 9 fault kinds (thrown string/object, bad index, type mismatch, failed assert, too few/many arguments, unknown identifier, calling null) planted at 15 sites (inline, call depth 1 and 3, method, each/fold callbacks driven by native adaptors, generator body, @+ / derived and direct comparison metakeys, list/string/call/map construction) under 7 handler structures (catch, finally, typed catch chains in all orders, nested handlers that match or rethrow) x 4 result uses; plus every combination of try/catch/finally block exits (fall-through, return, break, continue, throw) inside a loop inside a function with a later error in the same frame; plus errors caught inside open string/list/tuple/map/call constructions. Differential against the reference interpreter, and after every run the VM's internal stacks must be empty (hook H1).",
    note="Trusted: kref and the renderer. Runtime error message texts are not compared (only thrown values are). A throwing finally block is not generated (unspecified).",
